@@ -417,3 +417,17 @@ ASSUMPTIONS = {'C01': [
 NOT_DECIDED = {'C01': ['isLegal (verdict == playing the move): contract written, complete 12-way case split; the two king-move cases are discharged (24 and 42 min), the ten other cases did not finish in 50 min each: not claimed', 'removeIllegal (not under contract)',
                        'the generators pseudoLegalMoves / checkEvasions / pseudoLegalCaptures / pseudoLegalCapturesAndChecks (checkEvasions contract written; status in DESIGN)',
                        'sliding-attack magic tables, attack table initialisation, FEN text layer']}
+
+MUTANTS = [
+    dict(name='sqAttacked_pawn_colour', file='lib/texellib/moveGen.hpp', pattern=r'        if \(\(BitBoard::wPawnAttacks\(sq\) & pos.pieceTypeBB\(OtherColor::PAWN\)\) != 0\)', repl='        if ((BitBoard::bPawnAttacks(sq) & pos.pieceTypeBB(OtherColor::PAWN)) != 0)', groups=['sqAttacked_w']),
+    dict(name='sqAttacked_no_queen_diag', file='lib/texellib/moveGen.hpp', pattern=r'\(BitBoard::bishopAttacks\(sq, occupied\) & \(pos.pieceTypeBB\(OtherColor::BISHOP\) \| bbQueen\)\)', repl='(BitBoard::bishopAttacks(sq, occupied) & (pos.pieceTypeBB(OtherColor::BISHOP)))', groups=['sqAttacked_w', 'sqAttacked_b']),
+    dict(name='sqAttacked_king_omitted', file='lib/texellib/moveGen.hpp', pattern=r'    if \(\(BitBoard::kingAttacks\(sq\) & pos.pieceTypeBB\(OtherColor::KING\)\) != 0\)\n        return true;', repl='', groups=['sqAttacked_w']),
+    dict(name='inCheck_wrong_king', file='lib/texellib/moveGen.hpp', pattern=r'Square kingSq = pos.getKingSq\(pos.isWhiteMove\(\)\);\n    return sqAttacked\(pos, kingSq\);', repl='Square kingSq = pos.getKingSq(!pos.isWhiteMove());\n    return sqAttacked(pos, kingSq);', groups=['inCheck']),
+    dict(name='promotion_no_knight', file='lib/texellib/moveGen.hpp', pattern=r'        moveList.addMove\(sq0, sq, MyColor::KNIGHT\);\n', repl='', groups=['addPawnMovesByMask_w', 'addPawnMovesByMask_b']),
+    dict(name='promotion_rook_always', file='lib/texellib/moveGen.hpp', pattern=r'        if \(allPromotions\) \{', repl='        if (true) {', groups=['addPawnMovesByMask_w']),
+    dict(name='addMoves_from_to_swapped', file='lib/texellib/moveGen.hpp', pattern=r'        moveList.addMove\(sq0, sq, Piece::EMPTY\);', repl='        moveList.addMove(sq, sq0, Piece::EMPTY);', groups=['addMovesByMask']),
+    dict(name='pawn_double_delta', file='lib/texellib/moveGen.hpp', pattern=r'MoveGen::addPawnDoubleMovesByMask\(MoveList& moveList, U64 mask, int delta\) \{\n    while \(mask != 0\) \{\n        Square sq = BitBoard::extractSquare\(mask\);\n        moveList.addMove\(sq \+ delta, sq, Piece::EMPTY\);', repl='MoveGen::addPawnDoubleMovesByMask(MoveList& moveList, U64 mask, int delta) {\n    while (mask != 0) {\n        Square sq = BitBoard::extractSquare(mask);\n        moveList.addMove(sq + delta / 2, sq, Piece::EMPTY);', groups=['addPawnDoubleMovesByMask']),
+    dict(name='givesCheck_ep_discovered', file='lib/texellib/moveGen.cpp', pattern=r'                case 9: case 7: case -9: case -7:\n                    if \(nextPiece\(pos, epSq, d3\) == oKing\) \{', repl='                case 9: case 7: case -9:\n                    if (nextPiece(pos, epSq, d3) == oKing) {', groups=['givesCheck']),
+    dict(name='givesCheck_castle_rook_file', file='lib/texellib/moveGen.cpp', pattern=r'            if \(nextPieceSafe\(pos, m.from\(\) \+ 1, wtm \? 8 : -8\) == oKing\)', repl='            if (nextPieceSafe(pos, m.from() + 2, wtm ? 8 : -8) == oKing)', groups=['givesCheck']),
+    dict(name='givesCheck_pawn_direction', file='lib/texellib/moveGen.cpp', pattern=r'if \(\(\(d1 > 0\) == wtm\) && \(pos.getPiece\(m.to\(\) \+ d1\) == oKing\)\)', repl='if ((pos.getPiece(m.to() + d1) == oKing))', groups=['givesCheck']),
+]
